@@ -73,7 +73,12 @@ def shipped_specs(name):
 def generate(rng, tier, focus):
     if rng.random() < (0.015 if tier == "quick" else 0.04):
         name = rng.choice(sorted(SHIPPED_PAIRS))
-        cg, aa = shipped_specs(name)
+        try:
+            cg, aa = shipped_specs(name)
+        except Exception:
+            # the shipped files cannot be loaded on this tree (that is C11 / C12 / C15's business, not this engine's):
+            # fall back to a generated pair
+            return _generated(rng, tier, focus)
         start, end = (cg, aa) if rng.random() < 0.7 else (aa, cg)
         ns, ne = len(start["positions"]), len(end["positions"])
         n_mob = min(ns, ne)
@@ -83,6 +88,10 @@ def generate(rng, tier, focus):
                 "deform": None if rng.random() < 0.5 else rng.sample(allowed, rng.randint(1, len(allowed))),
                 "ignore_h": rng.random() < 0.7, "steps_factor": rng.choice([1, 1, 2]), "sigma_scale": 0.5,
                 "np_seed": rng.randrange(2 ** 32), "script": gen_script(rng), "shipped": name}
+    return _generated(rng, tier, focus)
+
+
+def _generated(rng, tier, focus):
     big = tier == "thorough" and rng.random() < 0.25
     hi = 40 if big else 12
     c = rng.random()
